@@ -12,6 +12,11 @@ CHECKS = {
    text="The dirty-flag protocol is a finite state machine once byte values are abstracted to 'memo valid or not'. The search runs the real TrackedArray through every view-creation / write-route / neutral-operation / hash-read action from every reached abstract state until the frontier closes (a fixpoint, reported in the evidence), and in every state hashes every live tracked handle on its own fresh replay against the hash of its current bytes and of a fresh array. Containers (DataStore, Trimesh, visuals, paths, point cloud, scene) are covered by all programs [pre-hash] x [handle kind] x [mid hash] x write route.",
    note="Trusts numpy and xxhash. Known findings (numpy write routes that bypass the subclass, untracked aliases) are listed in known_findings.json; exploration below a violating transition is pruned.",
    design="3.C02"),
+ "C06": dict(level="exploration", engine="E2",
+   technique="bounded-exhaustive enumeration of all small integer arrays x all option combinations, plus threshold-magnitude families, against tuple/dict oracles",
+   text="The grouping primitives are row-wise/run-wise: every branch (bit packing vs void fallback, wrap cases of blocks, require_count slicing) is selected by small discrete features that all occur among arrays of <=3 rows x <=3 columns over 3 symbols, sequences of length <=6, and values one below / at / above each packing limit. Every such input is run through every primitive with every option combination and compared with element-by-element grouping on Python tuples.",
+   note="Trusts Python dict/set semantics. Larger arrays and other dtypes (strings, uint64) are outside the enumerated scope.",
+   design="3.C06"),
 }
 
 NA = {}
